@@ -504,11 +504,15 @@ META = {
               "every length n (unbounded): _compute_key = RFC 4253 section 7.2 (K1 = HASH(K||H||X||sid), K(i+1) = "
               "HASH(K||H||K1..Ki), first n bytes), exactly n bytes, minimal number of blocks, prefix-monotone in n; "
               "_activate_inbound/_activate_outbound use the RFC letters (c2s A/C/E, s2c B/D/F) with the table lengths, so "
-              "client-out = server-in and server-out = client-in for every cipher/MAC row; the six hash inputs are "
+              "client-out = server-in and server-out = client-in for every cipher/MAC row — stated per direction with that "
+              "direction's negotiated algorithm (activateDir_rfc, peers_match_asymmetric: local and remote cipher/MAC may "
+              "differ in every size); the six hash inputs are "
               "pairwise distinct and within a role the in/out letters are disjoint; with a collision-free hash "
               "(explicit hypothesis) keys of different letters differ. Tables (cipher/MAC sizes, kex hash digest sizes) "
               "are regenerated from transport.py each run. Tied by byte-exact differential runs of the real "
-              "_compute_key/_activate_* with a toy hash, plus real-hash RFC oracle and real handshakes incl. rekey."),
+              "_compute_key/_activate_* with a toy hash (ordered pairs local != remote algorithm with differing key/IV/"
+              "digest sizes), plus real-hash RFC oracle and real handshakes incl. rekey and asymmetric negotiation (a "
+              "client offering different cipher/MAC lists per direction)."),
     "note": ("Trusted: Lean kernel + 3 standard axioms; hashlib; the harness (toy hash twin, RFC oracle, generators); "
              "Message.add_mpint = PV.Base.Wire.encMpint (C39's correspondence). 'Never share a key' beyond distinct "
              "hash inputs rests on collision resistance (hypothesis of keys_differ_of_collision_free). The cipher "
